@@ -230,7 +230,7 @@ MINE = {
  "C14-k": ("caught as built", ""),
  "C15-k": ("caught as built", ""),
  "C16-k": ("caught as built", ""),
- "C17-k": ("missed by C17 (options of an earlier Register call leaking into a later one: caught by C10's hook-less registration after a hooked one)", ""),
+ "C17-k": ("missed by C17 (caught by C10's hook-less registration after a hooked one)", "C17 registers AlphaService with a header-only error hook and BetaService after it without options; a rejected raw request on a Beta route that shows the hook's header is a verdict"),
  "C18-k": ("missed", "path variables bound to proto3 optional fields in the schema-shape probes"),
  "C19-k": ("missed", "maps with int32 / uint32 / int64 / bool keys, with and without rules on the keys"),
  "C20-k": ("missed", "mock case with message types of another Go package (singular, map value, inside a local map value); found and recorded a genuine defect on the way (map values of an imported type ignore its examples)"),
